@@ -251,18 +251,46 @@ def defaults_to_else(tree):
                 st = st.orelse[0]
             else:
                 return out, st
+    props = {f.name for f in ast.walk(tree) if isinstance(f, (ast.FunctionDef, ast.AsyncFunctionDef)) and f.decorator_list}
+
+    def key(t):
+        # a plain local, or self.<attr> where <attr> is an ordinary attribute (no property / setter of that name in the module)
+        if isinstance(t, ast.Name):
+            return t.id
+        if isinstance(t, ast.Attribute) and isinstance(t.value, ast.Name) and t.value.id == 'self' and t.attr not in props:
+            return f'self.{t.attr}'
+        return None
+
+    def reads(root, x):
+        for y in ast.walk(root):
+            if isinstance(y, ast.Name) and y.id == x and isinstance(y.ctx, ast.Load) and '.' not in x:
+                return True
+            if isinstance(y, ast.Attribute) and isinstance(y.ctx, ast.Load) and key(y) == x:
+                return True
+        return False
+    def self_free(root):
+        # nothing in the chain can observe the attribute between the default store and the override: only pure builtins are called,
+        # none of them on / with self
+        for y in ast.walk(root):
+            if isinstance(y, ast.Call):
+                if not effect_free(ast.Call(func=y.func, args=[], keywords=[])):
+                    return False
+                parts = list(y.args) + [k.value for k in y.keywords] + ([y.func.value] if isinstance(y.func, ast.Attribute) else [])
+                if any(isinstance(z, ast.Name) and z.id == 'self' for p_ in parts for z in ast.walk(p_)):
+                    return False
+        return True
     for node, fld, blk in list(_blocks(tree)):
         i = 0
         while i < len(blk) - 1:
             a, st = blk[i], blk[i + 1]
-            if isinstance(a, ast.Assign) and len(a.targets) == 1 and isinstance(a.targets[0], ast.Name) and pure_default(a.value) and \
+            if isinstance(a, ast.Assign) and len(a.targets) == 1 and key(a.targets[0]) and pure_default(a.value) and \
                     isinstance(st, ast.If):
-                x = a.targets[0].id
+                x = key(a.targets[0])
                 bodies, last = arms(st)
                 if not last.orelse and \
-                        all(any(isinstance(s, ast.Assign) and len(s.targets) == 1 and isinstance(s.targets[0], ast.Name) and s.targets[0].id == x
+                        all(any(isinstance(s, ast.Assign) and len(s.targets) == 1 and key(s.targets[0]) == x
                                 for s in b) for b in bodies) and \
-                        not any(isinstance(y, ast.Name) and y.id == x and isinstance(y.ctx, ast.Load) for y in ast.walk(st)) and \
+                        not reads(st, x) and not (x.startswith('self.') and not self_free(st)) and \
                         not (isinstance(a.value, ast.Name) and any(isinstance(y, ast.Name) and y.id == a.value.id and isinstance(y.ctx, ast.Store)
                                                                    for y in ast.walk(st))):
                     last.orelse = [a]
@@ -440,15 +468,22 @@ def merge_dict_stores(tree):
 
 def shape(tree, modname=None):
     tree = ifexp_to_statement(tree)
+    tree = defaults_to_else(tree)
     tree = NNF().visit(tree)
     tree = Shape().visit(tree)
     if modname is not None:
         from .inline import inline_helpers
         tree._inlined_helpers = inline_helpers(tree, modname)
+        if tree._inlined_helpers:
+            # the spliced bodies bring their own returns-turned-assignments: same normal forms again
+            tree = split_tuple_assign(tree)
+            tree = coalesce_generated(tree)
+            tree = ifexp_to_statement(tree)
+            tree = defaults_to_else(tree)
+            tree = NNF().visit(tree)
+            tree = Shape().visit(tree)
     tree = split_tuple_assign(tree)
-    tree = coalesce_generated(tree)
     tree = structure(tree)
-    tree = defaults_to_else(tree)
     tree = NNF().visit(tree)             # the nesting step creates new `not` tests
     tree = loops_to_comprehensions(tree)
     tree = merge_dict_stores(tree)
